@@ -43,7 +43,10 @@ CLAIMS = {
             'Jacobians they report; for graphs of such edges (any topology, multi-edges, offsets, any fixed set) one exact Gauss-Newton step from ANY '
             'start yields zero gradient, the Hessian does not depend on the state, a zero-gradient state is a fixed point (injective H), chi2 expands '
             'exactly as chi2* + 2 b.d + sum (J d)^T Omega (J d), hence a zero-gradient state is a global minimiser for PSD information and the unique one '
-            'for an injective Hessian. That optimize() reaches it in doubles from starts 1e6 away and reports its chi2 is checked by the oracle '
+            'for an injective Hessian. Both halves are joined for whole graphs (proofs/C04_whole.v): for every graph over one point per vertex with R^2/R^3 '
+            'odometry and landmark edges, the GraphModel records built from what the regenerated programs return at the state moved by dx (through the code\'s '
+            'boxplus) are entry-wise the shifted records, so from ANY start ANY solution dx of the normal equations leads to a state with zero assembled '
+            'gradient and the same Hessian (C04_one_step_Rn; premises met by a concrete graph). That optimize() reaches it in doubles from starts 1e6 away and reports its chi2 is checked by the oracle '
             '(independent numpy lstsq).',
             AX + 'hand-written model lib/GraphModel.v (dictionaries in insertion order, slice writes as pointwise block writes) validated on every run by an EXACT integer correspondence against graph.py; spsolve is not modelled (theorems quantify over every increment / every solution of H dx = -b); lil_matrix, dict order and set membership are modelled, not verified.' + TR,
             'Coq proof (Gauss-Newton algebra over GNSpec: flat-to-block sums, symmetry of Omega) + exact integer correspondence + lstsq oracle'),
